@@ -186,6 +186,13 @@ func isLenOfItemsCond(v ssa.Value) bool {
 	if !ok {
 		return false
 	}
+	// a parameter compared with the constant 0 (f <= 0): a guard on the argument, not on the cues
+	if _, isP := stripAllConv(bo.X).(*ssa.Parameter); isP && isZeroConst(bo.Y) {
+		return true
+	}
+	if _, isP := stripAllConv(bo.Y).(*ssa.Parameter); isP && isZeroConst(bo.X) {
+		return true
+	}
 	for _, side := range []ssa.Value{bo.X, bo.Y} {
 		if c, ok := side.(*ssa.Call); ok {
 			if bi, ok := c.Call.Value.(*ssa.Builtin); ok && bi.Name() == "len" {
